@@ -836,7 +836,7 @@ def distribution(cases):
 def run(ctx):
     vlib.regen(ctx, ("consts",))
     vlib.coq_hygiene(ctx)
-    vlib.coq_properties(ctx, "C13", extra_files=("Properties_C13_full.v", "Properties_C13_elim.v", "Properties_C13_eqineq.v", "Properties_C13_solve.v", "Properties_C14_perm_sorted.v", "Properties_C10_unique.v"))
+    vlib.coq_properties(ctx, "C13", extra_files=("Properties_C13_full.v", "Properties_C13_elim.v", "Properties_C13_eqineq.v", "Properties_C13_solve.v", "Properties_C13_refine.v", "Properties_C14_perm_sorted.v", "Properties_C10_unique.v"))
     # sparse KKT_FULL assembly: Gallina transcription of create_kkt_matrix / update_kkt_* / update_data vs the real code
     try:
         import kktfull_stage
@@ -866,6 +866,13 @@ def run(ctx):
     except Exception as e:
         import traceback
         ctx.ob("correspondence:kktsolve-model", "correspondence", False, "stage failed: " + traceback.format_exc()[-800:])
+    # refinement half of the sparse solve path (regularize_and_factorize(true), regularize/unregularize_kkt, the refinement loop)
+    try:
+        import kktrefine_stage
+        kktrefine_stage.kkt_refine_model_stage(ctx)
+    except Exception as e:
+        import traceback
+        ctx.ob("correspondence:kktrefine-model", "correspondence", False, "stage failed: " + traceback.format_exc()[-800:])
     R = Runner(ctx); R.build()
     stats = {}
     if getattr(ctx, "replay", None):
